@@ -278,3 +278,48 @@ Proof.
   { apply existsb_exists. exists sd. split; [exact Hin|]. destruct Hsd as [H|H]; [subst sd; rewrite String.eqb_refl; reflexivity|rewrite H; apply orb_true_r]. }
   rewrite Hex. reflexivity.
 Qed.
+
+Lemma last_index_noslash : forall w fuel i acc, has_char "/" w = false ->
+  last_index_from fuel w "/" i acc = acc.
+Proof.
+  induction w as [|a w IH]; intros fuel i acc Hw; destruct fuel as [|f]; try reflexivity.
+  cbn [has_char] in Hw. apply orb_false_iff in Hw. destruct Hw as [Ha Hw].
+  cbn [last_index_from has_prefix]. rewrite Ascii.eqb_sym in Ha. rewrite Ha. cbn [andb]. apply IH. exact Hw.
+Qed.
+
+Lemma last_index_slash_mid_from : forall q w fuel i acc, has_char "/" w = false -> String.length q < fuel ->
+  last_index_from fuel (q ++ "/" ++ w) "/" i acc = Some (i + String.length q).
+Proof.
+  induction q as [|a q IH]; intros w fuel i acc Hw Hf; (destruct fuel as [|f]; [cbn [String.length] in Hf; lia|]).
+  - cbn [String.append last_index_from has_prefix Ascii.eqb Bool.eqb andb String.length]. rewrite Nat.add_0_r.
+    assert (Hp : has_prefix w "" = true) by (destruct w; reflexivity). rewrite Hp.
+    apply last_index_noslash. exact Hw.
+  - change (String a q ++ "/" ++ w) with (String a (q ++ "/" ++ w)).
+    cbn [last_index_from String.length]. cbn [String.length] in Hf.
+    rewrite IH by (try assumption; lia). f_equal. lia.
+Qed.
+
+Lemma last_index_slash_mid : forall q w, has_char "/" w = false ->
+  last_index_from (S (String.length (q ++ "/" ++ w))) (q ++ "/" ++ w) "/" 0 None = Some (String.length q).
+Proof.
+  intros q w Hw. rewrite last_index_slash_mid_from; [reflexivity|exact Hw|].
+  rewrite length_append. lia.
+Qed.
+
+(* a prefix whose directory part r is no path (an element that is empty, "." or ".."): the walk answers the empty page, whatever the
+   tree, delimiter, marker and page size (the code before repair 24e8de4 answered an error there) *)
+Theorem invalid_root_empty_page : forall t r w delim marker max skip flag,
+  r <> "" -> r <> "." -> has_char "/" w = false -> forallb valid_seg (split_slash r "") = false ->
+  walk t (r ++ "/" ++ w) delim marker max skip flag = Some empty_result.
+Proof.
+  intros t r w delim marker max skip flag Hr Hrd Hw Hinv. unfold walk. destruct (Nat.eqb max 0); [reflexivity|].
+  assert (Hli : str_last_index (r ++ "/" ++ w) "/" = Some (String.length r)).
+  { unfold str_last_index. apply last_index_slash_mid; assumption. }
+  clear Hw.
+  rewrite Hli. destruct r as [|a r'] eqn:Er; [congruence|]. rewrite <- Er in *.
+  assert (Hlen : String.length r = S (String.length r')) by (rewrite Er; reflexivity). rewrite Hlen, <- Hlen. rewrite take_append.
+  destruct (existsb _ skip); [reflexivity|].
+  destruct (String.eqb r ".") eqn:Edot.
+  - apply String.eqb_eq in Edot. congruence.
+  - rewrite Hinv. reflexivity.
+Qed.
